@@ -968,6 +968,11 @@ class Exec:
             while t[0] in ('ref', 'deref'):
                 t = t[2] if t[0] == 'ref' else t[1]
             return t
+        if len(args) == 2 and c.name in ('max', 'min') and re.search(r'(^|::)cmp::(Ord::)?(max|min)(::<[^>]*>)?$', p):
+            a, b = peel(args[0]), peel(args[1])
+            if a[0] == 'const' and b[0] == 'const' and a[1] == b[1] and a[1] in INT_TYPES and a[2] is not None and b[2] is not None:
+                va, vb = const_value(a), const_value(b)
+                return mk_const(a[1], max(va, vb) if c.name == 'max' else min(va, vb))
         if len(args) == 1:
             a = peel(args[0])
             # `(lo..hi).is_empty()` / `(lo..=hi).is_empty()` on constant integer end points
